@@ -26,7 +26,7 @@ def patched_files(repo, patch):
     """Apply a unified diff to private copies of the touched files; return {abs path: new content} or None."""
     touched = []
     for line in open(patch, errors="replace"):
-        if line.startswith("+++ b/"):
+        if line.startswith("+++ b/") or line.startswith("+++ a/"):
             touched.append(line[6:].strip())
     if not touched:
         return None
@@ -101,6 +101,9 @@ def main():
             pass
         items.append({"name": os.path.basename(d), "kind": "seeded", "patch": os.path.join(d, "patch.diff"),
                       "expected": meta.get("expected_static", "reported")})
+    for f in sorted(glob.glob(os.path.join(VERIF, "variants", pid, "*.diff"))):
+        # reverse patches of the repairs made in /repo: each re-introduces a defect the check must report
+        items.append({"name": os.path.basename(f)[:-5], "kind": "seeded", "patch": f, "expected": "reported"})
     for f in sorted(glob.glob(os.path.join(VERIF, "variants", pid, "*.json"))):
         spec = json.load(open(f))
         specs = spec if isinstance(spec, list) else [spec]
